@@ -111,7 +111,7 @@ EXTRA = {
  "C09": " Mixed-precision HMC (f32 scalars on an f64 backend) in the continuation check. NUTS::run versus its chains over (chains, pool workers) configurations on both sides of chains > workers.",
  "C11": " Every family member <= 1023 draws and every array of the small exhaustive shapes is evaluated again as Fortran-ordered array, two axis-permuted views and a reversed strided view (split_rhat_mean_ess and RunStats::from).",
  "C12": " Every family member <= 600 draws and the smallest exhaustive shapes again in four other memory layouts. The ess_from_chainstats entry point on the exhaustive shapes with >= 2 chains and the families.",
- "C13": " f64 trackers are built from the f64 initial state and all histories over the not-f32-representable values {0.1, 1/3, 0.7} are explored.",
+ "C13": " f64 trackers are built from the f64 initial state and all histories over the not-f32-representable values {0.1, 1/3, 0.7} are explored. MultiChainTracker::max_rhat equals the maximum of rhat() after every update.",
  "C14": " HMC batches of 1, 2 (and 3) chains. The NUTS deviation bound is chosen per configuration so that the enumeration completes; trees whose leaves are all valid but exceed the leaf limit (2^12 for eps >= 0.3, 2^17 below) are reported cut-offs, a hang verdict needs growth after an invalid leaf. The initial step-size search is explored alone under every initial momentum of an alphabet (7 targets x 2 starts next to the boundary), non-termination caught by an evaluation budget inside the harness targets.",
  "C15": " All 4-operation histories over {sample d=1/3/70, set_seed(1), set_seed(2), clone}: draws after the last set_seed equal a fresh seeded proposal's.",
  "C17": " Histories: two saves to one path (larger then smaller and the reverse); a failed save followed by a successful save per entry point; the full-device error path uses a private character device 1:7 in the scratch directory, never a system node.",
